@@ -307,6 +307,20 @@ structure ExecM where
   pref : Pref
   deriving Repr
 
+/-- What the routing reads of the statement's own `StatementConfig` (`statement/mod.rs`): the consistency set through
+`PreparedStatement::set_consistency` / `Batch::set_consistency`, `None` when never set. -/
+structure StmtConfigM where
+  consistency : Option Consistency
+  deriving Repr
+
+/-- The executor's consistency: `statement_config.consistency.unwrap_or(execution_profile.consistency)`. The code has
+this line TWICE: `RequestExecutionParams::new_for_session_apis` (`execution.rs:129-131`, used by `Session::execute` and
+`Session::batch`) and `PagingExecutor::new` (`pager.rs:177-179`, used by `Session::execute_iter` for every page); both
+feed the `consistency` field of the `RoutingInfo` literals. One definition here - that the two sites agree is driven by
+the `e2e route lwt=1 lvia=s` cases (api=u / api=b vs api=i, pages=2). The location preference is the session's. -/
+def effectiveExec (sc : StmtConfigM) (profile : ExecM) : ExecM :=
+  { profile with consistency := sc.consistency.getD profile.consistency }
+
 /-- `Session::execute`, up to `RoutingInfo { consistency, serial_consistency, token, table, is_confirmed_lwt,
 node_location_preference }`: the token is `extract_partition_key_and_calculate_token(partitioner, values)` (the C03
 model; `None` for a statement without partition-key markers); an extraction / encoding error makes `execute` return
